@@ -224,7 +224,11 @@ def judge_comp(rec, comp, ctx, pre, out):
 
 # ----------------------------------------------------------------------------- workloads
 def gen_labels(rng, n):
-    mode = int(rng.integers(0, 8))
+    mode = int(rng.integers(0, 9))
+    if mode == 8:  # packed / hashed 64-bit particle ids: neighbours closer than the spacing of float64 at that magnitude
+        lab = int(rng.choice([2**53, 2**60, 2**62 + 12345])) + rng.permutation(2 * n)[:n].astype(np.int64)
+        lab[rng.random(n) < 0.2] = -1
+        return np.asarray(lab, dtype=np.int64)
     if mode == 0:
         lab = np.arange(n)
     elif mode == 1:  # molecules
